@@ -179,7 +179,7 @@ class Addr:
     def meaning(self):
         if self.kind == "pair":
             return ("pair", self.pair)
-        return ("group", self.name, self.members)
+        return ("group", self.name, tuple(self.members or ()))
 
 
 @dataclass(frozen=True)
